@@ -4,7 +4,10 @@ outside its buffers, never hangs, never terminates the process.
 Model   : lean/TapkeeVerif/Model/Pipeline.lean (configuration-level: validated / prediction set / finiteness claim)
 Gen     : lean/TapkeeVerif/Gen/IndexExprs.lean  (tools/translate_index.py: index / size / loop-bound expressions,
           validation bounds, catch->rethrow map, foreign throws, exit() sites — regenerated from /repo every run)
-Theorems: lean/TapkeeVerif/Props/C01.lean (+ Proofs/InBounds.lean)
+          lean/TapkeeVerif/Gen/IndexSites.lean  (tools/translate_sites.py: EVERY slice / coefficient / subscript site of
+          routines/, methods/, neighbors/, utils/, external/barnes_hut_sne with its coverage class thm / loopvar / sweepOnly)
+Theorems: lean/TapkeeVerif/Props/C01.lean (+ Proofs/InBounds.lean); lean/TapkeeVerif/Props/C01Sites.lean (the hand-kept
+          list of accepted sweep-only sites, `sweep_only_sites_accepted` by decide, `loopvar_sites_in_range`)
 Harness : harness/c01_sweep.cpp (public API, ASan+UBSan+_GLIBCXX_ASSERTIONS; second build with -DTAPKEE_DEBUG)
 """
 import concurrent.futures
@@ -26,7 +29,7 @@ REQUIRED_THEOREMS = ["TapkeeVerif.C01." + t for t in [
     "general_position_must_succeed", "predictionOn_errors_documented",
     # §2 index sites (those of SITE_THEOREMS below are required in full OR as refuted + partial)
     "validated_d", "validated_k", "inb_nth_element", "neighbor_lists_have_length_k", "inb_neighbor_lists",
-    "inb_neighbor_lists_needs_uniform", "inb_cover_sets", "inb_cover_sets_all", "inb_cover_leaf_and_node_scale",
+    "inb_neighbor_lists_needs_uniform", "inb_neighbors_outer", "inb_cover_sets", "inb_cover_sets_all", "inb_cover_leaf_and_node_scale",
     "inb_hlle_col_after_fix", "inb_hlle_blocks", "hlle_dp_nonneg", "inb_ltsa_g", "inb_dense_largest_N", "inb_dm",
     "inb_landmark_erase", "inb_triangulate", "inb_dense_smallest_cols", "inb_gen_le_cols", "inb_randomized", "inb_spe_ind1",
     "spe_floor_term", "inb_spe_indices", "inb_tsne_y", "inb_tsne_posf_partial", "inb_tsne_exact_error_partial", "inb_tsne_knn",
